@@ -22,6 +22,27 @@ def ColsOK (names : List Py.Str) (columns : Py.Str) : Bool :=
    decide (parts.count rowIDName ≤ 1) &&
    (Py.strIn rowIDName columns == parts.contains rowIDName))
 
+/-- a column string that is fine for a database without added columns is fine for every database -/
+theorem colsOK_mono (names : List Py.Str) (columns : Py.Str) (h : ColsOK [] columns = true) : ColsOK names columns = true := by
+  unfold ColsOK at h ⊢
+  by_cases hs : (columns == "*".toList) = true
+  · rw [hs]; rfl
+  · have hs' : (columns == "*".toList) = false := by simpa using hs
+    simp only [hs', Bool.false_or, Bool.and_eq_true] at h ⊢
+    obtain ⟨⟨⟨h1, h2⟩, h3⟩, h4⟩ := h
+    refine ⟨⟨⟨?_, h2⟩, h3⟩, h4⟩
+    rw [List.all_eq_true] at h1 ⊢
+    intro p hp
+    have := h1 p hp
+    simp only [List.contains_iff_mem, Tbl.colnames, List.mem_cons, List.mem_append, List.not_mem_nil, or_false] at this ⊢
+    rcases this with h | h
+    · exact Or.inl h
+    · exact Or.inr (Or.inl h)
+
+def isIntVal : Val → Bool
+  | .int _ => true
+  | _ => false
+
 def sqlRow (cols : List Col) (rp : Row × Nat) : List Val := cols.map (fun c => sqlCell c rp.2 rp.1)
 def specRow (cols : List Col) (rp : Row × Nat) : List Val := cols.map (fun c => cell c rp.2 rp.1)
 
